@@ -647,11 +647,31 @@ class Parser:
                     break
             return Node('ttuple', line, elems=elems)
         if self.at('['):
-            self.err("array/slice types are not supported")
+            self.p += 1
+            elem = self.type()
+            if self.eat(';'):
+                n = self.expr()
+                self.expect(']')
+                return Node('tarray', line, elem=elem, len=n)
+            self.expect(']')
+            return Node('tslice', line, elem=elem)
         if self.at('*'):
             self.err("raw pointer types are not supported")
-        if self.at_kw('dyn') or self.at_kw('impl') or self.at_kw('fn'):
-            self.err("dyn/impl/fn types are not supported")
+        if self.at_kw('fn'):
+            self.p += 1
+            self.expect('(')
+            fargs = []
+            while not self.eat(')'):
+                fargs.append(self.type())
+                if not self.eat(','):
+                    self.expect(')')
+                    break
+            fret = None
+            if self.eat('->'):
+                fret = self.type()
+            return Node('tfn', line, args=fargs, ret=fret)
+        if self.at_kw('dyn') or self.at_kw('impl'):
+            self.err("dyn/impl types are not supported")
         if self.eat('!'):
             return Node('tnever', line)
         segs = []
@@ -821,6 +841,13 @@ class Parser:
                 self.expect(';')
                 stmts.append(Node('let', sl, pat=pat, ty=ty, value=e, is_mut=is_mut))
                 continue
+            if self.t.kind == 'ident' and self.t.val == 'use':
+                # a `use` in a body only brings names into scope; paths are resolved by their last segments
+                while not self.eat(';'):
+                    if self.t.kind == 'eof':
+                        self.err("unterminated `use`")
+                    self.p += 1
+                continue
             if self.t.kind == 'ident' and self.t.val in ('fn', 'struct', 'enum', 'impl', 'use', 'const', 'static', 'mod', 'trait', 'type') \
                     and not (self.t.val == 'const' and self.peek().val == '{'):
                 self.err("items inside function bodies are not supported")
@@ -943,7 +970,10 @@ class Parser:
                 args = self.call_args()
                 e = Node('call', line, fn=e, args=args)
             elif self.at('['):
-                self.err("indexing is not supported")
+                self.p += 1
+                ix = self.expr()
+                self.expect(']')
+                e = Node('index', line, e=e, idx=ix)
             else:
                 return e
 
@@ -1037,7 +1067,16 @@ class Parser:
         if self.at('|') or self.at('||') or self.at_kw('move'):
             self.err("closures are not supported")
         if self.at('['):
-            self.err("array expressions are not supported")
+            self.p += 1
+            elems = []
+            while not self.eat(']'):
+                elems.append(self.expr())
+                if self.at(';'):
+                    self.err("repeat array expressions are not supported")
+                if not self.eat(','):
+                    self.expect(']')
+                    break
+            return Node('array', line, elems=elems)
         if t.kind == 'ident':
             if t.val in ('true', 'false'):
                 self.p += 1
